@@ -1,6 +1,351 @@
 package main
 
-// replayOnRealCode: placeholder until the replay harness is built.
+// Replay of a solver counterexample against the real code.
+//
+// For a refuted obligation of a function whose parameters are plain values (strings, integers, booleans, `any`
+// holding one of those), the model's inputs are turned into Go literals, an in-package test is injected with
+// `go test -overlay` (nothing is written into /repo), the real function is called, and the observed results are
+// fed back into the obligation's query together with the inputs. If that query is still satisfiable the real
+// execution violates the clause: the violation is confirmed on the real code.
+
+import (
+	"encoding/json"
+	"fmt"
+	"go/types"
+	"os"
+	"os/exec"
+	"path/filepath"
+	"regexp"
+	"strconv"
+	"strings"
+	"time"
+)
+
+type goArg struct {
+	lit  string
+	smt  string
+	name string
+}
+
+func smtStrToGo(t string) (string, bool) {
+	if len(t) < 2 || t[0] != '"' || t[len(t)-1] != '"' {
+		return "", false
+	}
+	body := t[1 : len(t)-1]
+	var b []byte
+	for i := 0; i < len(body); i++ {
+		c := body[i]
+		if c == '"' && i+1 < len(body) && body[i+1] == '"' {
+			b = append(b, '"')
+			i++
+			continue
+		}
+		if c == '\\' && strings.HasPrefix(body[i:], "\\u{") {
+			j := strings.IndexByte(body[i:], '}')
+			if j < 0 {
+				return "", false
+			}
+			v, err := strconv.ParseUint(body[i+3:i+j], 16, 32)
+			if err != nil || v > 255 {
+				return "", false
+			}
+			b = append(b, byte(v))
+			i += j
+			continue
+		}
+		if c == '\\' && strings.HasPrefix(body[i:], "\\x") && i+3 < len(body) {
+			v, err := strconv.ParseUint(body[i+2:i+4], 16, 8)
+			if err == nil {
+				b = append(b, byte(v))
+				i += 3
+				continue
+			}
+		}
+		b = append(b, c)
+	}
+	return string(b), true
+}
+
+func smtIntToGo(t string) (string, bool) {
+	t = strings.TrimSpace(t)
+	if strings.HasPrefix(t, "(- ") {
+		return "-" + strings.TrimSuffix(strings.TrimPrefix(t, "(- "), ")"), true
+	}
+	if _, err := strconv.ParseInt(t, 10, 64); err == nil {
+		return t, true
+	}
+	if _, err := strconv.ParseUint(t, 10, 64); err == nil {
+		return t, true
+	}
+	return "", false
+}
+
+var fpRe = regexp.MustCompile(`^\(fp #b([01]) #[bx]([0-9a-f]+) #[bx]([0-9a-f]+)\)$`)
+
+func smtFloatToGo(t string, bits int) (string, bool) {
+	t = strings.TrimSpace(t)
+	switch {
+	case strings.HasPrefix(t, "(_ +zero"):
+		return "0.0", true
+	case strings.HasPrefix(t, "(_ -zero"):
+		return "math.Copysign(0, -1)", true
+	case strings.HasPrefix(t, "(_ +oo"):
+		return "math.Inf(1)", true
+	case strings.HasPrefix(t, "(_ -oo"):
+		return "math.Inf(-1)", true
+	}
+	m := fpRe.FindStringSubmatch(t)
+	if m == nil {
+		return "", false
+	}
+	toBits := func(s string, isHex bool) string {
+		if !isHex {
+			return s
+		}
+		var b strings.Builder
+		for _, c := range s {
+			v, _ := strconv.ParseUint(string(c), 16, 8)
+			fmt.Fprintf(&b, "%04b", v)
+		}
+		return b.String()
+	}
+	parts := strings.Fields(strings.Trim(t, "()"))
+	e := toBits(m[2], strings.HasPrefix(parts[2], "#x"))
+	f := toBits(m[3], strings.HasPrefix(parts[3], "#x"))
+	all := m[1] + e + f
+	if len(all) != bits {
+		return "", false
+	}
+	v, err := strconv.ParseUint(all, 2, 64)
+	if err != nil {
+		return "", false
+	}
+	if bits == 64 {
+		return fmt.Sprintf("math.Float64frombits(0x%x)", v), true
+	}
+	return fmt.Sprintf("float64(math.Float32frombits(0x%x))", v), true
+}
+
+var kindNames = map[int]string{2: "int", 3: "int8", 4: "int16", 5: "int32", 6: "int64", 7: "uint", 8: "uint8", 9: "uint16", 10: "uint32", 11: "uint64", 12: "uintptr"}
+
+func smtValToGo(t string) (string, bool) {
+	t = strings.TrimSpace(t)
+	switch {
+	case t == "VNil":
+		return "nil", true
+	case strings.HasPrefix(t, "(VBool "):
+		return strings.TrimSuffix(strings.TrimPrefix(t, "(VBool "), ")"), true
+	case strings.HasPrefix(t, "(VStr "):
+		s, ok := smtStrToGo(strings.TrimSuffix(strings.TrimPrefix(t, "(VStr "), ")"))
+		return strconv.Quote(s), ok
+	case strings.HasPrefix(t, "(VInt "):
+		f := strings.TrimSuffix(strings.TrimPrefix(t, "(VInt "), ")")
+		sp := strings.IndexByte(f, ' ')
+		if sp < 0 {
+			return "", false
+		}
+		k, err := strconv.Atoi(f[:sp])
+		n, ok := smtIntToGo(f[sp+1:])
+		if err != nil || !ok || kindNames[k] == "" {
+			return "", false
+		}
+		return fmt.Sprintf("%s(%s)", kindNames[k], n), true
+	case strings.HasPrefix(t, "(VF64 "):
+		f, ok := smtFloatToGo(strings.TrimSuffix(strings.TrimPrefix(t, "(VF64 "), ")"), 64)
+		return "float64(" + f + ")", ok
+	case strings.HasPrefix(t, "(VF32 "):
+		f, ok := smtFloatToGo(strings.TrimSuffix(strings.TrimPrefix(t, "(VF32 "), ")"), 32)
+		return "float32(" + f + ")", ok
+	}
+	return "", false
+}
+
+func goLiteralFor(t types.Type, smt string) (string, bool) {
+	switch u := t.Underlying().(type) {
+	case *types.Basic:
+		switch {
+		case u.Info()&types.IsString != 0:
+			s, ok := smtStrToGo(smt)
+			return strconv.Quote(s), ok
+		case u.Info()&types.IsBoolean != 0:
+			return smt, smt == "true" || smt == "false"
+		case u.Info()&types.IsInteger != 0:
+			return smtIntToGo(smt)
+		}
+	case *types.Interface:
+		if u.NumMethods() == 0 {
+			return smtValToGo(smt)
+		}
+	}
+	return "", false
+}
+
+func goResultToSMT(t types.Type, raw json.RawMessage) (string, bool) {
+	switch u := t.Underlying().(type) {
+	case *types.Basic:
+		switch {
+		case u.Info()&types.IsString != 0:
+			var s string
+			if json.Unmarshal(raw, &s) != nil {
+				return "", false
+			}
+			return smtString(s), true
+		case u.Info()&types.IsBoolean != 0:
+			return string(raw), true
+		case u.Info()&types.IsInteger != 0:
+			var n int64
+			if json.Unmarshal(raw, &n) != nil {
+				return "", false
+			}
+			return smtInt(n), true
+		}
+	}
+	return "", false
+}
+
 func replayOnRealCode(rc *runCtx, verif string, o *Obl, r *Result, inputs map[string]string) (bool, string) {
-	return false, "replay harness not available for this obligation"
+	e := o.enc
+	fn := e.fn
+	if fn == nil || fn.Pkg == nil || fn.Signature.Recv() != nil || fn.Parent() != nil {
+		return false, "replay: not a plain package-level function"
+	}
+	if o.Kind != "post" && o.Kind != "panic" {
+		return false, "replay: only postconditions and panic obligations are replayed"
+	}
+	var args []goArg
+	needMath := false
+	for i, p := range fn.Params {
+		if i >= len(o.Inputs) {
+			return false, "replay: missing input names"
+		}
+		mv, ok := inputs[o.Inputs[i]]
+		if !ok {
+			// unconstrained by the model: any value works
+			mv = rc.w.so.zero(p.Type())
+		}
+		lit, ok := goLiteralFor(p.Type(), mv)
+		if !ok {
+			return false, fmt.Sprintf("replay: parameter %s (%s) has no literal form for model value %s", p.Name(), p.Type(), mv)
+		}
+		if strings.Contains(lit, "math.") {
+			needMath = true
+		}
+		args = append(args, goArg{lit: lit, smt: mv, name: o.Inputs[i]})
+	}
+	// spec functions with a Go implementation: evaluate them on every string argument
+	type gi struct{ spec, impl string }
+	var impls []gi
+	for _, n := range sortedKeys(rc.w.cs.Specs) {
+		sf := rc.w.cs.Specs[n]
+		if sf.GoImpl != "" && len(sf.Params) == 1 && sf.Params[0].Type == "string" && sf.Ret == "string" {
+			impls = append(impls, gi{n, sf.GoImpl})
+		}
+	}
+	pkgDir := filepath.Join(rc.w.repo, strings.TrimPrefix(strings.TrimPrefix(fn.Pkg.Pkg.Path(), modulePath), "/"))
+	var src strings.Builder
+	fmt.Fprintf(&src, "package %s\n\nimport (\n\t\"encoding/json\"\n\t\"fmt\"\n\t\"testing\"\n\tstdhtml \"html\"\n", fn.Pkg.Pkg.Name())
+	if needMath {
+		src.WriteString("\t\"math\"\n")
+	}
+	src.WriteString(")\n\nvar _ = stdhtml.EscapeString\n\n")
+	src.WriteString("func TestGovcReplay(t *testing.T) {\n\tout := map[string]any{}\n\tfunc() {\n\t\tdefer func() {\n\t\t\tif r := recover(); r != nil {\n\t\t\t\tout[\"panicked\"] = true\n\t\t\t\tout[\"panic\"] = fmt.Sprint(r)\n\t\t\t}\n\t\t}()\n")
+	var lits []string
+	for _, a := range args {
+		lits = append(lits, a.lit)
+	}
+	nres := fn.Signature.Results().Len()
+	var rnames []string
+	for i := 0; i < nres; i++ {
+		rnames = append(rnames, fmt.Sprintf("r%d", i))
+	}
+	call := fmt.Sprintf("%s(%s)", fn.Name(), strings.Join(lits, ", "))
+	if nres > 0 {
+		fmt.Fprintf(&src, "\t\t%s := %s\n\t\tout[\"results\"] = []any{%s}\n", strings.Join(rnames, ", "), call, strings.Join(rnames, ", "))
+	} else {
+		fmt.Fprintf(&src, "\t\t%s\n", call)
+	}
+	// goimpl evaluations on string inputs and string results
+	src.WriteString("\t\timpl := map[string]map[string]string{}\n")
+	for _, g := range impls {
+		implExpr := strings.ReplaceAll(g.impl, "html.", "stdhtml.")
+		fmt.Fprintf(&src, "\t\timpl[%q] = map[string]string{}\n", g.spec)
+		for i, p := range fn.Params {
+			if b, ok := p.Type().Underlying().(*types.Basic); ok && b.Info()&types.IsString != 0 {
+				fmt.Fprintf(&src, "\t\timpl[%q][%s] = %s(%s)\n", g.spec, args[i].lit, implExpr, args[i].lit)
+			}
+		}
+	}
+	src.WriteString("\t\tout[\"impl\"] = impl\n\t}()\n\tb, _ := json.Marshal(out)\n\tfmt.Println(\"GOVC-REPLAY \" + string(b))\n}\n")
+
+	tmp, err := os.MkdirTemp(os.Getenv("TMPDIR"), "govc-replay-")
+	if err != nil {
+		return false, "replay: " + err.Error()
+	}
+	defer os.RemoveAll(tmp)
+	testFile := filepath.Join(tmp, "zz_govc_replay_test.go")
+	os.WriteFile(testFile, []byte(src.String()), 0o644)
+	ov, _ := json.Marshal(map[string]any{"Replace": map[string]string{filepath.Join(pkgDir, "zz_govc_replay_test.go"): testFile}})
+	ovFile := filepath.Join(tmp, "overlay.json")
+	os.WriteFile(ovFile, ov, 0o644)
+	cmd := exec.Command("go", "test", "-tags", "verif", "-overlay", ovFile, "-vet=off", "-count=1", "-v", "-timeout", "60s", "-run", "^TestGovcReplay$", ".")
+	cmd.Dir = pkgDir
+	cmd.Env = append(os.Environ(), "GOFLAGS=-mod=mod", "GOPROXY=off")
+	t0 := time.Now()
+	outB, _ := cmd.CombinedOutput()
+	out := string(outB)
+	cmdline := fmt.Sprintf("(cd %s && go test -tags verif -overlay <overlay> -vet=off -count=1 -timeout 60s -run '^TestGovcReplay$' .) [%.1fs]", pkgDir, time.Since(t0).Seconds())
+	idx := strings.Index(out, "GOVC-REPLAY ")
+	if idx < 0 {
+		return false, "replay: test did not run: " + firstLines(out, 6) + "\n" + cmdline
+	}
+	line := strings.SplitN(out[idx+len("GOVC-REPLAY "):], "\n", 2)[0]
+	var res struct {
+		Panicked bool                         `json:"panicked"`
+		Panic    string                       `json:"panic"`
+		Results  []json.RawMessage            `json:"results"`
+		Impl     map[string]map[string]string `json:"impl"`
+	}
+	if err := json.Unmarshal([]byte(line), &res); err != nil {
+		return false, "replay: cannot parse harness output: " + line
+	}
+	desc := fmt.Sprintf("call %s -> %s\n%s", call, line, cmdline)
+	if o.Kind == "panic" {
+		return res.Panicked, desc
+	}
+	if res.Panicked {
+		return false, desc + "\n(the real call panicked; the postcondition is not evaluated)"
+	}
+	// feed inputs and observed results back into the query
+	q, _ := o.query(rc.w)
+	q = strings.TrimSuffix(strings.TrimSpace(q), "(check-sat)")
+	var extra strings.Builder
+	for _, a := range args {
+		fmt.Fprintf(&extra, "(assert (= %s %s))\n", a.name, a.smt)
+	}
+	for i, rt := range o.Results {
+		if i >= len(res.Results) {
+			break
+		}
+		lit, ok := goResultToSMT(rt.T, res.Results[i])
+		if !ok {
+			return false, desc + fmt.Sprintf("\n(result %d of type %s cannot be fed back)", i, rt.T)
+		}
+		fmt.Fprintf(&extra, "(assert (= %s %s))\n", rt.S, lit)
+	}
+	for spec, m := range res.Impl {
+		if !strings.Contains(q, "spec_"+spec+" ") {
+			continue
+		}
+		for in, outv := range m {
+			fmt.Fprintf(&extra, "(assert (= (spec_%s %s) %s))\n", spec, smtString(in), smtString(outv))
+		}
+	}
+	full := q + "\n" + extra.String() + "(check-sat)\n"
+	ans, sout, _ := runSolver(ctxBackground(), "z3-new", 10, full, false)
+	desc += fmt.Sprintf("\nclause re-evaluated on the observed input/output by z3: %s", ans)
+	if ans == "sat" {
+		return true, desc
+	}
+	_ = sout
+	return false, desc
 }
